@@ -252,7 +252,7 @@ m('c17-filenames-seen-late', ['C17'], 'streamz/sources.py',
   'paths of one poll are emitted in set order')
 # ---- C18 -----------------------------------------------------------------
 m('c18-start-no-guard', ['C18'], 'streamz/sources.py',
-  "            if not getattr(self, '_running', False):\n                self._running = True\n                self.loop.add_callback(self._run_once)",
+  "            if not getattr(self, '_running', False):\n                self._running = True\n                self.loop.add_callback(self._run_once)\n            else:\n                self._start_pending = True",
   "            self._running = True\n            self.loop.add_callback(self._run_once)",
   'restart while the old loop is suspended starts a second loop')
 m('c18-periodic-no-recheck', ['C18'], 'streamz/sources.py',
